@@ -194,6 +194,11 @@ def contract_obligations(I, c, lemma_fn=None):
                   env2 = env
               for k, en in enumerate(c.ensures):
                   obs.append(Obligation(f"{tag}.ensures{k}", p.pc, spec_bool(I, en, env2, c.name), where, "R", f"postcondition `{en}`"))
+              if c.fresh and c.returns and isinstance(p.value, (SAdt,)) and p.value.sort in ("NodeList", "Node", "AttrList", "ChildList", "DepList"):
+                  # callers rely on `fresh`: the returned container is a new object, not one of the arguments (no aliasing)
+                  is_new = bool(getattr(p.value, "fresh", False)) and not any(p.value is a for a in args.values())
+                  obs.append(Obligation(f"F:{short}:path{pi}.fresh-result", p.pc, z3.BoolVal(is_new), where, "F",
+                                        "the returned object is newly allocated (not the receiver or an argument): later in-place changes of one cannot affect the other"))
               for m, pexpr in c.post.items():
                   want = spec_term(I, pexpr, env, c.name, want=c.sort_of(m))
                   try:
